@@ -301,10 +301,11 @@ JsKeepVarNamesOK(idi, ido, dci, dco) ==
   /\ ToSet(ido) \subseteq (ToSet(idi) \cup GlobalValueNames)
   /\ ToSet(dco) \subseteq ToSet(dci)
 (* Precision in JS: documented rewrites introduce numeric literals of their own ("shorten true,
-   false, and undefined to !0, !1 and void 0"), so the input's literals must be found, in
-   order, among the output's (greedy earliest match is complete for order-preserving
-   embeddings), each trimmed as PrecisionOK allows. *)
+   false, and undefined to !0, !1 and void 0") and reorder declarations ("move var declarations to
+   the top of the global/function scope"), so literals are not paired by position: every literal of
+   the input has a literal in the output that is its value trimmed as PrecisionOK allows, and no
+   literal is lost. *)
 JsPrecisionOK(ni, p, no) ==
-  FoldLeft(LAMBDA i, x : IF i <= Len(ni) /\ (~IsNumber(ni[i]) \/ PrecisionOK(ni[i], p, x)) THEN i + 1 ELSE i, 1, no)
-    = Len(ni) + 1
+  /\ Len(no) >= Len(ni)
+  /\ \A i \in 1..Len(ni) : IsNumber(ni[i]) => \E j \in 1..Len(no) : PrecisionOK(ni[i], p, no[j])
 =============================================================================
